@@ -5,8 +5,10 @@
 (* walk (one step per token, as the code iterates) against FirstPair.        *)
 EXTENDS NameResolve, Json
 CONSTANTS MaxFrags
-Frags == { FUNCTION, <<32>>, <<97>>, <<98, 36>>, <<233>>, <<119987, 97>>, <<15247>>, <<40>>, <<97, 8205, 98>>, <<123>> }
-Names == { <<97>>, <<98, 36>>, <<233>>, <<119987, 97>>, <<15247>>, <<97, 8205, 98>>, <<97, 46, 98>>, <<49, 97>> }
+Frags == { FUNCTION, <<32>>, <<97>>, <<98, 36>>, <<233>>, <<119987, 97>>, <<15247>>, <<40>>, <<97, 8205, 98>>, <<123>>,
+           <<8472>>, <<97, 2366>> }            \* an Other_ID_Start character; a letter followed by a combining mark
+Names == { <<97>>, <<98, 36>>, <<233>>, <<119987, 97>>, <<15247>>, <<97, 8205, 98>>, <<97, 46, 98>>, <<49, 97>>,
+           <<8472>>, <<97, 2366>>, <<2366, 97>> }      \* the last one starts with a mark: not an identifier
 VARIABLES phase, line, starts, i0, name, k, found
 vars == <<phase, line, starts, i0, name, k, found>>
 Units(s) == FoldLeft(LAMBDA a, c : a + U16w(c), 0, s)
